@@ -17,11 +17,16 @@ class SuiteRejected(Exception):
         self.diags = diags
 
 
-def build(only=None):
+F_ALL = ("f_staking", "f_stargate", "f_cw20")
+
+
+def build(only=None, feats=None):
     """Builds all suites; when that fails, `only`'s suite alone (its cargo feature), so that a tree that breaks the API
-    of one suite does not take the others down.  Errors located in the suite's own sources raise SuiteRejected."""
-    key = only or "all"
-    if "all" in _BIN:
+    of one suite does not take the others down.  Errors located in the suite's own sources raise SuiteRejected.
+    `feats` (with `only`): the subset of the framework feature switches f_staking / f_stargate / f_cw20 to build with.
+    Every built binary is copied aside under the build lock (all builds share one cargo output path)."""
+    key = (only or "all") + ("" if feats is None else "+" + ",".join(sorted(feats)))
+    if "all" in _BIN and feats is None:
         return _BIN["all"]
     if key in _BIN:
         return _BIN[key]
@@ -30,25 +35,34 @@ def build(only=None):
         shutil.copy(os.path.join(core.REPO, "Cargo.lock"), lock)
     tgt = os.path.join(core.BUILD, "target-e2")
     env = core.cargo_env({"CARGO_TARGET_DIR": tgt})
-    with core.BuildLock("e2"):
-        p, dt = core.run(["cargo", "build", "--offline", "--message-format=json"] + (["--no-default-features", "--features", "s_" + only] if only else []), cwd=RT, env=env)
+    args = []
+    if only:
+        args = ["--no-default-features", "--features", ",".join(["s_" + only] + list(F_ALL if feats is None else feats))]
     exe = None
     errs = []
     own = []
-    for line in p.stdout.splitlines():
-        try:
-            m = json.loads(line)
-        except Exception:
-            continue
-        if m.get("reason") == "compiler-artifact" and m.get("executable") and m["target"]["name"] == "rt":
-            exe = m["executable"]
-        if m.get("reason") == "compiler-message" and m["message"].get("level") == "error":
-            errs.append(m["message"].get("rendered", ""))
-            if m.get("target", {}).get("name") == "rt":
-                sp = [x for x in m["message"].get("spans", []) if x.get("is_primary")]
-                own.append({"message": m["message"].get("message", ""), "code": (m["message"].get("code") or {}).get("code"),
-                            "file": sp[0]["file_name"] if sp else None, "line": sp[0]["line_start"] if sp else None,
-                            "rendered": m["message"].get("rendered", "")[:1500]})
+    with core.BuildLock("e2"):
+        p, dt = core.run(["cargo", "build", "--offline", "--message-format=json"] + args, cwd=RT, env=env)
+        for line in p.stdout.splitlines():
+            try:
+                m = json.loads(line)
+            except Exception:
+                continue
+            if m.get("reason") == "compiler-artifact" and m.get("executable") and m["target"]["name"] == "rt":
+                exe = m["executable"]
+            if m.get("reason") == "compiler-message" and m["message"].get("level") == "error":
+                errs.append(m["message"].get("rendered", ""))
+                if m.get("target", {}).get("name") == "rt":
+                    sp = [x for x in m["message"].get("spans", []) if x.get("is_primary")]
+                    own.append({"message": m["message"].get("message", ""), "code": (m["message"].get("code") or {}).get("code"),
+                                "file": sp[0]["file_name"] if sp else None, "line": sp[0]["line_start"] if sp else None,
+                                "rendered": m["message"].get("rendered", "")[:1500]})
+        if p.returncode == 0 and exe:
+            bindir = os.path.join(core.BUILD, "bin")
+            os.makedirs(bindir, exist_ok=True)
+            mine = os.path.join(bindir, "rt-%s-%d" % (key.replace(",", "_").replace("+", "-"), os.getpid()))
+            shutil.copy2(exe, mine)
+            exe = mine
     if (p.returncode != 0 or not exe) and not only:
         return None
     if p.returncode != 0 or not exe:
@@ -56,13 +70,15 @@ def build(only=None):
         if own:
             raise SuiteRejected(own)
         raise core.MachineryError("runtime suite does not build against the current tree:\n%s\n%s" % ("\n".join(errs)[-5000:], p.stderr[-2000:]))
-    core.log("[e4] suites built in %.1fs" % dt)
+    core.log("[e4] suites built in %.1fs (%s)" % (dt, key))
     _BIN[key] = exe
+    import atexit
+    atexit.register(lambda path=exe: os.path.exists(path) and os.remove(path))
     return exe
 
 
-def run_suite(name, tier, timeout=3600):
-    exe = build() or build(only=name)
+def run_suite(name, tier, timeout=3600, feats=None):
+    exe = build(only=name, feats=feats) if feats is not None else (build() or build(only=name))
     env = dict(os.environ)
     env["RUST_BACKTRACE"] = "0"
     p, dt = core.run([exe, name, tier], env=env, timeout=timeout)
@@ -91,10 +107,10 @@ def stub():
     return _Stub()
 
 
-def run_suite_into(res, name, tier, timeout=3600):
+def run_suite_into(res, name, tier, timeout=3600, feats=None):
     """run_suite, with a rejection of the suite's own valid sources by the compiler reported as violations of res's property."""
     try:
-        return run_suite(name, tier, timeout=timeout)
+        return run_suite(name, tier, timeout=timeout, feats=feats)
     except SuiteRejected as e:
         seen = set()
         for d in e.diags:
